@@ -176,7 +176,8 @@ INFO = dict(
                "outside the pattern's alphabet), the automaton returned by the real interegular_to_wfsa is unrolled for a z3 string s with |s| <= L "
                "and compared with a z3 regular expression obtained from CPython's own regex parse tree; z3 decides accept(s) != fullmatch(s) over ALL "
                "strings over the character set up to length L at once; models are replayed on the real automaton and re.fullmatch. Local "
-               "normalisation is a ground fact about constants (exact rationals of the stored floats, tolerance 1e-9).",
+               "normalisation is a ground fact about constants (exact rationals of the stored floats, tolerance 1e-9). A further case converts "
+               "several patterns with ONE caller-supplied character-set object (as char_cfg does) and requires the set unchanged and the last language right.",
     level_note="Trusted: CPython's re as the meaning of a pattern (single-character predicates are evaluated by re on each charset character), z3's "
                "sequence/regex theory, the unrolling encoder. The translator is validated per run against re.fullmatch on solver-generated strings.",
     design_ref="DESIGN.md section 3 C18",
